@@ -1152,6 +1152,8 @@ class Evaluator:
             lit = it
             if isinstance(lit, Call) and isinstance(lit.func, Ext) and lit.func.name in ('reversed',) and len(lit.args) == 1 and isinstance(lit.args[0], TupleT):
                 lit = TupleT(tuple(reversed(lit.args[0].items)), lit.args[0].kind)
+            if isinstance(lit, TupleT) and lit.kind in ('tuple', 'list') and not lit.items and not s.orelse:
+                return [st]     # a loop over an empty literal does nothing
             if isinstance(lit, TupleT) and lit.kind in ('tuple', 'list') and 0 < len(lit.items) <= 8 and not s.orelse \
                     and not any(isinstance(x, Op) and x.op == '*' for x in lit.items) \
                     and not any(isinstance(n, (ast.Break, ast.Continue)) for b in s.body for n in ast.walk(b)) \
@@ -1358,6 +1360,23 @@ class Evaluator:
             return self.flag_bits(v, _depth + 1)
         if isinstance(t, Const) and t.value == 0 and isinstance(t.value, int) and not isinstance(t.value, bool):
             return frozenset()  # the empty flag
+        if isinstance(t, Call) and isinstance(t.func, FuncRef) and not t.kwargs:
+            # a set of flags built by a small helper of the package (it ors its arguments): its result on these arguments
+            callee = self.callee(t.func)
+            if callee is not None and _depth < 6:
+                a = callee.node.args
+                binding = None
+                if a.vararg is not None and not a.args and not a.kwonlyargs:
+                    binding = {a.vararg.arg: TupleT(tuple(t.args))}
+                elif a.vararg is None and len(a.args) == len(t.args):
+                    binding = dict(zip([x.arg for x in a.args], t.args))
+                if binding is not None:
+                    try:
+                        outs = [o for o in self.run(callee, binding) if o.kind != 'raise']
+                    except AnalysisError:
+                        outs = []
+                    if len(outs) == 1 and outs[0].kind == 'return' and outs[0].value is not None:
+                        return self.flag_bits(outs[0].value, _depth + 1)
         if isinstance(t, Op) and t.op in ('|', '&') and len(t.args) == 2:
             a, b = self.flag_bits(t.args[0], _depth + 1), self.flag_bits(t.args[1], _depth + 1)
             if a is None or b is None:
